@@ -62,6 +62,7 @@ ERR_CODES = ['#NULL!', '#DIV/0!', '#VALUE!', '#REF!', '#NAME?', '#NUM!', '#N/A']
 FCOL = 'ZZ'
 BLOCK = 13          # column distance between the ranges of a formula case
 SCALAR_ROW = 19     # 0-based row that holds referenced scalars
+LISTED_MAX_EMPTY = 100   # ast_nodes.MAX_EMPTY when D1403 was listed
 
 
 # ---------------------------------------------------------------- values and wire
@@ -795,7 +796,6 @@ def replay_case(path):
 
 def run(ctx):
     import xlcalculator  # noqa: F401
-    from xlcalculator import ast_nodes
     res = Result()
     res.rule = ('every fill pattern of rectangles <= 3x3 over {number, empty, non-numeric text} (thorough: all '
                 '21297; quick: all up to 2x3/3x2 and 500 of the 3x3 ones), random rectangles up to 12x12, every '
@@ -805,12 +805,18 @@ def run(ctx):
                 'over ranges of a compiled model; real vs the fold of the statement (exact; mean within 4 ulp) '
                 'and vs the Lean model; non-trivial = distinct request addressing >= 2 values of which >= 1 is a '
                 'number, or holding an error item')
-    max_empty = int(getattr(ast_nodes, 'MAX_EMPTY', 100))
+    # the listed region of D1403 is pinned to the constant the code had when the finding was listed
+    # (a smaller MAX_EMPTY makes more inputs fail: those are violations, not the known finding)
+    max_empty = LISTED_MAX_EMPTY
     listed = {e['id'] for e in ctx.known if e.get('status') == 'known'}
     if ctx.replay:
         cases = [replay_case(ctx.replay)]
     else:
         g = Gen(ctx)
+        for path in sorted((common.CORPUS / 'C14').glob('*.json')):
+            c = replay_case(path)
+            c['kind'] = 'corpus'
+            g.cases.append(c)
         g.known_regions()
         g.errors()
         g.shapes()
